@@ -384,7 +384,7 @@ func alwaysAppends(h *ssa.Function) bool {
 	if h == nil || h.Blocks == nil || len(h.Params) != 2 {
 		return false
 	}
-	want := "append(" + h.Params[0].Name() + ", [" + h.Params[1].Name() + "])"
+	want := "append(" + pname(h.Params[0]) + ", [" + pname(h.Params[1]) + "])"
 	ok, n := true, 0
 	eachInstr(h, func(in ssa.Instruction) {
 		if ret, isR := in.(*ssa.Return); isR {
